@@ -7,7 +7,17 @@ import GeoVerif.Props.C17
 slice is proved equal to the model's `getitem` for every pair of (optional) bounds, the translated duplicate scan — a loop
 whose state is the local set `_ts` — to the model's `hasDupLoop` for every member list and every set, and the C17 laws
 about them are restated for the translated source.
+
+Round 2 extends the unit to the rest of the class: the views `first` / `last` / `start` / `end`, the pairwise
+differences, `copy`, `__eq__`, `convolve_duplicate_timestamps` (two loops, a `defaultdict`, `continue`, a dict
+comprehension), `filter_by_time` and `filter_impossible_journeys` (an index loop whose every list lookup may raise: the
+proof carries the invariant that the indices stay inside the list).  Each is proved equal to the model function, and
+`track_sorted` / `slice_exact` / `journeys_chain` / `convolve_nodup` are restated for the translated definitions.
 -/
+set_option linter.unusedSimpArgs false
+set_option linter.unusedTactic false
+set_option linter.unreachableTactic false
+
 namespace GV.C17Src
 open GV GV.Coll GV.Coll.Track
 
@@ -39,7 +49,7 @@ theorem hasDupLoop_eq (c : Coll) :
   | cons p ps ih =>
     intro seen
     unfold Src.Track.hasDup.loop1 hasDupLoop
-    simp only [ih]
+    simp only [ih] <;> cases seen.contains p.dt <;> simp
 
 theorem hasDup_eq (c : Coll) : Src.Track.hasDup a b dist c = hasDup c := by
   simp only [Src.Track.hasDup, hasDup, hasDupLoop_eq]
@@ -61,34 +71,46 @@ theorem src_slice_unbounded {c : Coll} (hc : TrackWF c) :
 `first`, `last`, `start`, `end`, `time_start_diffs`, `centroid_distances`, `copy`, `convolve_duplicate_timestamps`,
 `filter_by_time`, `filter_impossible_journeys`.  The haversine distance of two centroids is the parameter `dist`. -/
 
+/-- `len(xs)` against small literals, whichever way round the comparison is written -/
+theorem len_nil {α : Type} : GV.Py.len ([] : List α) = 0 := rfl
+theorem len_cons_ne {α : Type} (x : α) (xs : List α) : GV.Py.len (x :: xs) ≠ 0 := by
+  unfold GV.Py.len; simp only [List.length_cons]; omega
+theorem len_cons_ne' {α : Type} (x : α) (xs : List α) : (0 : Int) ≠ GV.Py.len (x :: xs) := (len_cons_ne x xs).symm
+theorem len_cons_pos {α : Type} (x : α) (xs : List α) : (0 : Int) < GV.Py.len (x :: xs) := by
+  unfold GV.Py.len; simp only [List.length_cons]; omega
+theorem len_cons_not_le {α : Type} (x : α) (xs : List α) : ¬ GV.Py.len (x :: xs) ≤ (0 : Int) := by
+  have := len_cons_pos x xs; omega
+
 theorem copy_eq (c : Coll) : Src.Track.copy a b dist c = copy c := by
   simp only [Src.Track.copy, copy]
 
 theorem first_eq (c : Coll) : Src.Track.first a b dist c = first c := by
   unfold Src.Track.first first
-  cases c.shapes <;> simp [GV.Py.getIdx]
+  cases c.shapes <;> simp [GV.Py.getIdx, len_nil, len_cons_ne, len_cons_ne', len_cons_pos, len_cons_not_le]
 
 theorem last_eq (c : Coll) : Src.Track.last a b dist c = last c := by
   unfold Src.Track.last last
-  rw [GV.Py.getIdxI_neg_one]
+  first | rw [GV.Py.getIdxI_neg_one] | rw [GV.Py.getIdxI_len_pred]
   cases hl : c.shapes.getLast? with
-  | none => simp [List.getLast?_eq_none_iff.mp hl]
+  | none => simp [List.getLast?_eq_none_iff.mp hl, len_nil]
   | some x =>
     have hne : c.shapes ≠ [] := fun h => by rw [h] at hl; cases hl
-    simp [hne]
+    obtain ⟨y, ys, hys⟩ := List.exists_cons_of_ne_nil hne
+    simp [hne, hys, len_cons_ne, len_cons_ne', len_cons_pos, len_cons_not_le]
 
 theorem startT_eq (c : Coll) : Src.Track.startT a b dist c = startT c := by
   unfold Src.Track.startT startT first
-  cases c.shapes <;> simp [GV.Py.getIdx]
+  cases c.shapes <;> simp [GV.Py.getIdx, len_nil, len_cons_ne, len_cons_ne', len_cons_pos, len_cons_not_le]
 
 theorem endT_eq (c : Coll) : Src.Track.endT a b dist c = endT c := by
   unfold Src.Track.endT endT last
-  rw [GV.Py.getIdxI_neg_one]
+  first | rw [GV.Py.getIdxI_neg_one] | rw [GV.Py.getIdxI_len_pred]
   cases hl : c.shapes.getLast? with
-  | none => simp [List.getLast?_eq_none_iff.mp hl]
+  | none => simp [List.getLast?_eq_none_iff.mp hl, len_nil]
   | some x =>
     have hne : c.shapes ≠ [] := fun h => by rw [h] at hl; cases hl
-    simp [hne]
+    obtain ⟨y, ys, hys⟩ := List.exists_cons_of_ne_nil hne
+    simp [hne, hys, len_cons_ne, len_cons_ne', len_cons_pos, len_cons_not_le]
 
 theorem len_lt_two {α : Type} (l : List α) : decide (GV.Py.len l < (2 : Int)) = decide (l.length < 2) := by
   unfold GV.Py.len
@@ -199,10 +221,11 @@ theorem convolveLoop2_eq (c : Coll) (g0 : List (Option TI × List Shape)) :
     | x :: y :: r, _ =>
       have hlen : ¬ (GV.Py.len (x :: y :: r) = 1) := by
         unfold GV.Py.len; simp only [List.length_cons]; omega
+      have hlen' : ¬ ((1 : Int) = GV.Py.len (x :: y :: r)) := fun h => hlen h.symm
       have hu : GV.Py.unzip2 ((x :: y :: r).map (fun s : Shape => (s.lon, s.lat))) =
           .ok ((x :: y :: r).map (·.lon), (x :: y :: r).map (·.lat)) := by
         simp [GV.Py.unzip2, List.unzip_eq_map]
-      simp only [beq_iff_eq, hlen, if_false, hu, dictOf_eq]
+      simp only [beq_iff_eq, hlen, hlen', if_false, hu, dictOf_eq]
       rw [divR_len _ _ (by simp), divR_len _ _ (by simp)]
       simp only [ih _ hrest, convolveGroup, avg, GV.Py.sumR, List.map_cons, List.append_assoc,
         List.singleton_append]
@@ -267,17 +290,18 @@ theorem journeysLoop_eq (c : Coll) (v : Rat) :
     by_cases h0 : dtSeconds c.shapes[i] c.shapes[j] = 0
     · have hr : reach dist v c.shapes[i] c.shapes[j] = false := by simp [reach, h0]
       simpa [h0, hr] using ihi
-    · by_cases hx : dist c.shapes[i] c.shapes[j] = 0
+    · have h0' : ¬ (0 = dtSeconds c.shapes[i] c.shapes[j]) := fun h => h0 h.symm
+      by_cases hx : dist c.shapes[i] c.shapes[j] = 0
       · by_cases hv : (0 : Rat) ≤ v
         · have hr : reach dist v c.shapes[i] c.shapes[j] = true := by simp [reach, h0, hx, hv]
-          simpa [h0, hx, hv, hr] using ihj
+          simpa [h0, h0', hx, hv, hr] using ihj
         · have hr : reach dist v c.shapes[i] c.shapes[j] = false := by simp [reach, hx, hv]
-          simpa [h0, hx, hv, hr] using ihi
+          simpa [h0, h0', hx, hv, hr] using ihi
       · by_cases hv : dist c.shapes[i] c.shapes[j] / dtSeconds c.shapes[i] c.shapes[j] ≤ v
         · have hr : reach dist v c.shapes[i] c.shapes[j] = true := by simp [reach, h0, hx, hv]
-          simpa [h0, hx, hv, hr, GV.Py.divR] using ihj
+          simpa [h0, h0', hx, hv, hr, GV.Py.divR] using ihj
         · have hr : reach dist v c.shapes[i] c.shapes[j] = false := by simp [reach, hx, hv]
-          simpa [h0, hx, hv, hr, GV.Py.divR] using ihi
+          simpa [h0, h0', hx, hv, hr, GV.Py.divR] using ihi
 
 /-- **the translated `filter_impossible_journeys`** is the model's `journeys` -/
 theorem journeys_eq (c : Coll) (v : Rat) : Src.Track.journeys a b dist c v = journeys dist v c := by
